@@ -246,8 +246,22 @@ func checkC13(p *Prog, r *Report) {
 					onFpBranch := func(b *ssa.BasicBlock) bool {
 						return b == fpStart.B || 0 != len(b.Instrs) && canReach(fpStart, b.Instrs[0])
 					}
-					forwardStores(tr, func(s3 *ssa.Store, via ssa.Value) {
+					var onStore func(s3 *ssa.Store, via ssa.Value)
+					wrapped := map[ssa.Value]bool{}
+					onStore = func(s3 *ssa.Store, via ssa.Value) {
 						f3, cb := fieldAddrOf(s3.Addr)
+						if nil != f3 && "Transport" != f3.Name() {
+							/* Put inside a RoundTripper of the module's own
+							which hands every request to it (and can only add
+							refusals): that wrapper carries the pin on. */
+							if wal, isAl := resolveCell(cb).(*ssa.Alloc); isAl && !wrapped[wal] {
+								if in := unwrapPassThrough(p, wal, "RoundTrip"); in != ssa.Value(wal) && stripConv(resolveCell(in), false) == stripConv(resolveCell(s3.Val), false) {
+									wrapped[wal] = true
+									forwardStores(wal, onStore)
+								}
+							}
+							return
+						}
 						if nil == f3 || "Transport" != f3.Name() {
 							return
 						}
@@ -271,7 +285,8 @@ func checkC13(p *Prog, r *Report) {
 							}
 						}
 						installed = true
-					})
+					}
+					forwardStores(tr, onStore)
 				}
 				if "" != why {
 					rPin.Bad(c, posOf(st), "%s", why)
